@@ -37,18 +37,19 @@ type ChainParams struct {
 
 // Node is one whole engine + application on its own simulated disk.
 type Node struct {
-	ID     int
-	Name   string
-	Peer   p2p.PeerID
-	P      *ChainParams
-	Disk   *simfs.Disk
-	FS     *simfs.FS
-	Up     bool
-	Hung   bool
-	Skew   time.Duration
-	Keys   []*Validator // validators this node generates for
-	Log    *ringLogger
-	Starts int
+	ID          int
+	Name        string
+	Peer        p2p.PeerID
+	P           *ChainParams
+	Disk        *simfs.Disk
+	FS          *simfs.FS
+	Up          bool
+	Hung        bool
+	IsAdversary bool // the adversary's shadow node: its publications are intercepted
+	Skew        time.Duration
+	Keys        []*Validator // validators this node generates for
+	Log         *ringLogger
+	Starts      int
 
 	BlockchainDB, GeneratorDB, StateDB, ModuleDB *db.DB
 	Chain                                        *blockchain.Chain
